@@ -209,6 +209,7 @@ func (cs *cmpSpec) tokenDivergences(src []byte, s, r []Tok, suffix string) (sigs
 	}
 	i, j := 0, 0
 	illegalDiverged := false
+	semiMissed := false
 	for {
 		for i < len(s) && j < len(r) && s[i] == r[j] {
 			i++
@@ -223,8 +224,15 @@ func (cs *cmpSpec) tokenDivergences(src []byte, s, r []Tok, suffix string) (sigs
 		}
 		// an ILLEGAL token preserves insertSemi where the reference's real token resets it: a semicolon
 		// difference right after a token already reported as ILLEGAL-vs-token is the same root cause
-		if !(illegalDiverged && i > 0 && s[i-1].Kind == "ILLEGAL" && (kindAt(s, i) == ";auto" || kindAt(r, j) == ";auto")) {
+		semiDiff := (kindAt(s, i) == ";auto") != (kindAt(r, j) == ";auto")
+		// nParen is reset by every `;`: once one side has missed an inserted semicolon, whether a later
+		// `...` sets insertSemi (nParen == 0) differs as a consequence of that same root cause
+		afterEllipsis := semiDiff && semiMissed && i > 0 && s[i-1].Kind == "..."
+		if !(illegalDiverged && i > 0 && s[i-1].Kind == "ILLEGAL" && semiDiff) && !afterEllipsis {
 			add(sig, d)
+		}
+		if semiDiff {
+			semiMissed = true
 		}
 		// resynchronise: next pair of identical non-inserted tokens at the same offset
 		ni, nj := -1, -1
